@@ -230,7 +230,9 @@ const nonNilKeyword = "nonnil"
 var annotationKeyword = fmt.Sprintf("(%s|%s)", nilableKeyword, nonNilKeyword)
 
 const sep = ","
-const identRegexStr = "[a-zA-Z][a-zA-Z0-9]*"
+// identRegexStr matches a Go identifier: a letter or underscore followed by letters, digits and underscores
+// (https://go.dev/ref/spec#Identifiers).
+const identRegexStr = `[\p{L}_][\p{L}\p{Nd}_]*`
 
 const paramTemplateStr = "param %s"
 
